@@ -1,6 +1,6 @@
 (* Entry points of the extracted checkers for tree cases. *)
 From RS Require Import Base.Prelude Base.Text Stream.Types Stream.Tree Api.ApiTree Checkers.ChkTree
-  Sem.ReplaceObj Checkers.ChkReplace.
+  Sem.ReplaceObj Checkers.ChkReplace Api.ApiHist Checkers.ChkHist.
 
 Definition api_check_tree (prop : N) (s : src) (ws : list (N * wop)) (o : tree_obs) : N :=
   if prop =? 1 then chk_C01 s o
@@ -16,3 +16,17 @@ Definition api_rhist (inner : src) (h : list rcall) : list rout :=
   model_outs h (snd (rrun (source inner) robj_new h)).
 Definition api_check_rhist (inner : src) (h : list rcall) (outs : list rout) : N :=
   if negb (tree_wf inner) then 100 else chk_C05 (source inner) h outs.
+
+(* histories on one object: kind 0 = thist (reference: fresh object), 1 = chist (reference: wrapped source) *)
+Definition api_check_hist (s : src) (ops : list hop) (ans ref : list answer) : N := chk_hist s ops ans ref.
+
+Definition api_check_pair (prop : N) (a : src) (opsa : list hop) (b : src) (opsb : list hop)
+           (relaxed : bool) (o : pair_obs) : N :=
+  if prop =? 13 then chk_C13 a b relaxed o
+  else if prop =? 14 then chk_C14_pair a b o
+  else if prop =? 20 then chk_C20_pair a b o
+  else 100.
+
+(* classification of a panic observed on a tree: 100 = outside the domain, 53 = class K3, 1 = violation *)
+Definition api_panic_class (s : src) : N :=
+  if negb (tree_wf s) then 100 else if k3_shape s then 53 else 1.
